@@ -501,6 +501,58 @@ def c11(res, ctx):
             k += 1
     return dict(rule='static evaluation of generated legal positions and their colour-flipped twins (all game stages the generators reach); all mate/stalemate positions among generated few-piece endgames x full-move numbers %s; go depth 1..3 on twins' % fulls)
 
+def binary_session(app, commands, timeout=60):
+    """drive the real engine binary over stdin/stdout; always ends with quit (the binary busy-loops on EOF)"""
+    import subprocess, threading, queue, time
+    p = subprocess.Popen([app], stdin=subprocess.PIPE, stdout=subprocess.PIPE, stderr=subprocess.DEVNULL, text=True, bufsize=1)
+    q = queue.Queue()
+    def reader():
+        for line in p.stdout:
+            q.put(line.rstrip('\n'))
+        q.put(None)
+    threading.Thread(target=reader, daemon=True).start()
+    lines = []
+    def drain(until=None, t=timeout):
+        end = time.time() + t
+        while time.time() < end:
+            try:
+                l = q.get(timeout=0.05 if until is None else max(0.05, end - time.time()))
+            except queue.Empty:
+                if until is None: return True
+                continue
+            if l is None: return False
+            lines.append(l)
+            if until and l.startswith(until): return True
+        return until is None
+    ok = True
+    for c in commands:
+        if c.startswith('@sleep'):
+            time.sleep(int(c.split()[1]) / 1000.0); continue
+        try:
+            p.stdin.write(c + '\n'); p.stdin.flush()
+        except BrokenPipeError:
+            ok = False; break
+        if c.startswith('go ') and 'infinite' not in c and not c.endswith(' x'):
+            ok = drain('bestmove') and ok
+        elif c == 'stop':
+            ok = drain('bestmove') and ok
+        elif c in ('isready',):
+            ok = drain('readyok', 10) and ok
+        elif c == 'uci':
+            ok = drain('uciok', 10) and ok
+        else:
+            time.sleep(0.01); drain(None)
+    try:
+        p.stdin.write('quit\n'); p.stdin.flush()
+    except Exception:
+        pass
+    try:
+        p.wait(timeout=10)
+    except Exception:
+        p.kill(); ok = False
+    drain(None)
+    return lines, ok
+
 # ------------------------------------------------------------------ C16
 def c16(res, ctx):
     from common import esc
@@ -571,6 +623,37 @@ def c16(res, ctx):
         if m and int(m.group(1)) != len(pv):
             if k < MAXREP: res.violation('session', cases[ci], 'legal pv', ' '.join(pv) + ' from ' + f, 'property', 'reported pv is not a legal line from the searched position')
             k += 1
+    # the real binary over stdin/stdout: every line after the start-up banner must be a valid engine-to-GUI message
+    try:
+        app = V.build_engine_app()
+        bin_lines = []
+        for si in range(6 if q else 80):
+            cmds = ['uci', 'isready']
+            for _ in range(rng.randint(1, 4)):
+                if rng.random() < 0.3: cmds.append('ucinewgame')
+                pth = rng.choice(ps)
+                cmds.append('position fen ' + pth)
+                r = rng.random()
+                if r < 0.6: cmds.append('go depth %d' % rng.randint(1, 3))
+                elif r < 0.8: cmds.append('go movetime %d' % rng.choice([0, 1, 10]))
+                else: cmds += ['go infinite', '@sleep %d' % rng.choice([1, 5, 20]), 'stop']
+            if rng.random() < 0.3: cmds += ['register later', 'isready', 'nonsense command', 'go depth x', 'position fen bad', 'debug off']
+            out_lines, ok = binary_session(app, cmds)
+            nbest = sum(1 for l in out_lines if l.startswith('bestmove'))
+            ngo = sum(1 for c in cmds if c.startswith('go ') and c != 'go depth x')
+            if not ok or nbest != ngo:
+                if k < MAXREP: res.violation('binary-session', '\t'.join(cmds), '%d bestmove lines, clean exit on quit' % ngo, ' ;; '.join(out_lines)[-600:], 'property', 'the engine process hung, crashed or answered a wrong number of bestmoves')
+                k += 1
+            body = out_lines[1:] if out_lines and not out_lines[0].startswith(('id ', 'info', 'bestmove', 'uciok', 'readyok')) else out_lines
+            bin_lines += [(l, '\t'.join(cmds)) for l in body]
+        verdicts = V.run_model('spec-engineline', [esc(l) for l, _ in bin_lines])
+        res.count('binary-session-lines', [esc(l) for l, _ in bin_lines])
+        for (l, c), v in zip(bin_lines, verdicts):
+            if v == 'bad':
+                if k < MAXREP: res.violation('binary-session', c, 'a valid UCI engine-to-GUI line', l, 'spec', 'the engine process wrote a line outside the UCI output grammar')
+                k += 1
+    except V.BuildError as e:
+        res.notes.append('engine_app could not be built: ' + e.log[-300:])
     # renderer: model vs the real ConsoleUciTx on generated messages; every rendering of a msg_ok message must be a valid line
     import gen_consoletx
     tx_cases = V.corpus('consoletx') + gen_consoletx.gen(rng, res.tier)
